@@ -109,15 +109,24 @@ class _Transport(_httpx.AsyncBaseTransport):
                 w.push_at(end[1], _CLOSE if end[0] == "close" else _httpx.ReadError("stream reset", request=request))
             return _httpx.Response(c[2], headers={"content-type": "text/event-stream"}, stream=_SSEStream(w),
                                    request=request)
-        idx = len(w.posts)
         try:
             body = json.loads(request.content)
         except Exception:
             body = None
+        # the i-th DISTINCT message gets the i-th entry of the script; a message that is POSTed AGAIN (same bytes) is handled again
+        # by the server exactly like the first time - its events are pushed again - and this time acknowledged with 202
+        key = bytes(request.content)
+        seen = getattr(w, "_post_keys", None)
+        if seen is None:
+            seen = w._post_keys = {}
+        resent = key in seen
+        idx = seen.setdefault(key, len(seen))
         t0 = loop.time()
         w.posts.append((t0, str(request.url), body))
         posts = sc.get("posts", [])
         spec = posts[idx] if idx < len(posts) else {"delay": 0.0, "outcome": ["status", 202, b""], "events": []}
+        if resent:
+            spec = dict(spec, outcome=["status", 202, b""])
         for dt, b in spec.get("events", []):
             w.push_at(t0 + dt, bytes(b))
         if spec.get("delay", 0.0) > 0:
@@ -129,6 +138,8 @@ class _Transport(_httpx.AsyncBaseTransport):
                 raise _httpx.ConnectError("connection refused", request=request)
             if kind == "timeout":
                 raise _httpx.ReadTimeout("read timeout", request=request)
+            if kind == "disconnect":
+                raise _httpx.RemoteProtocolError("Server disconnected without sending a response.", request=request)
             raise RuntimeError("scripted failure")
         hdrs = {"content-type": out[3] if len(out) > 3 else "application/json"}
         return _httpx.Response(out[1], headers=hdrs, content=bytes(out[2]), request=request)
